@@ -106,23 +106,23 @@ type Config struct {
 
 // Analysis holds the results.
 type Analysis struct {
-	P      *load.Prog
-	G      *cg.Graph
-	Cfg    Config
-	Sum    map[*ssa.Function]*Summary
-	Closed map[string]*Effect // effects without parameter atoms (decided where they became closed)
-	alias  map[string]string  // cell union-find (closure variables)
-	dep    map[*ssa.Function]map[ssa.Value]Deps
-	extra  map[*ssa.Function]map[ssa.Value]Deps
-	tup    map[fnKey]Deps
-	esc    map[*ssa.Alloc]bool
-	invokeSink func(site ssa.CallInstruction, inScope bool) []int
-	Taint  map[string]string // tainted cell -> why (one write site)
-	Raw    map[string]bool   // cells from which a sink is reached raw
+	P           *load.Prog
+	G           *cg.Graph
+	Cfg         Config
+	Sum         map[*ssa.Function]*Summary
+	Closed      map[string]*Effect // effects without parameter atoms (decided where they became closed)
+	alias       map[string]string  // cell union-find (closure variables)
+	dep         map[*ssa.Function]map[ssa.Value]Deps
+	extra       map[*ssa.Function]map[ssa.Value]Deps
+	tup         map[fnKey]Deps
+	esc         map[*ssa.Alloc]bool
+	invokeSink  func(site ssa.CallInstruction, inScope bool) []int
+	Taint       map[string]string   // tainted cell -> why (one write site)
+	Raw         map[string]bool     // cells from which a sink is reached raw
 	cellOrigins map[string][]string // tainted cell -> marked origins that reach it
-	RawWhy map[string]string // raw cell -> the effect through which it reaches a sink
-	Prim   map[string]bool   // transparent cells (locals, closure variables, call-back parameters) that hold a marked origin directly
-	funcs  []*ssa.Function
+	RawWhy      map[string]string   // raw cell -> the effect through which it reaches a sink
+	Prim        map[string]bool     // transparent cells (locals, closure variables, call-back parameters) that hold a marked origin directly
+	funcs       []*ssa.Function
 }
 
 // Carrier: the type can hold text.
